@@ -193,6 +193,9 @@ class Check:
                     t = f"standard-library axiom {a} (reported by Print Assumptions {n})"
                     if t not in self.trusted:
                         self.trusted.append(t)
+        # thorough tier: independent re-check of the compiled property file and everything it depends on
+        if ok and self.tier == "thorough" and "coqchk" not in self.cov and os.environ.get("VERIF_NO_COQCHK") != "1":
+            self.coqchk(["Wz." + relv[:-2].replace("/", ".")])
         return ok
 
     def coqchk(self, modules: list[str], timeout=3000) -> bool:
